@@ -13,6 +13,9 @@ def run(tier, seed):
     run.model_check("MC_Assembly", "Neg_Assembly.cfg", expect_violation="C07_InputsRestored")
     recipes = []
     base = ac.real_family_cases(rng, 1 if q else 3, 3, annotate=True, refs=True) + ac.real_family_cases(rng, 1 if q else 2, 3)
+    # successful calls that only warn: an unused module with citations of its own
+    for r in ac.real_family_cases(rng, 1 if q else 3, 2, annotate=True, refs=True, extra_unused=1):
+        recipes.append(dict(r, repeat=True))
     for r in base:
         # (a) the plain call, repeated on the same objects
         recipes.append(dict(r, repeat=True))
